@@ -106,7 +106,11 @@ func (w *Walker) Walk(
 	ctx, cancelFunc := context.WithCancel(ctx)
 	w.allCancel = cancelFunc
 
-	// populate info map
+	// populate the info map completely before any routine is started: a routine that
+	// completes looks up its dependants in the map (startNode/cancelNode), so a node
+	// registered later would miss its ready/cancel message and the map would be
+	// written while it is being read
+	var selectedNodes []model.BuildNode
 	for _, node := range w.graph.nodes {
 		if !node.GetIsSelected() {
 			// skip unselected targets
@@ -122,7 +126,10 @@ func (w *Walker) Walk(
 			ready:  readyCh,
 			cancel: cancelCh,
 		}
+		selectedNodes = append(selectedNodes, node)
+	}
 
+	for _, node := range selectedNodes {
 		w.wait.Add(1)
 		// start all routines
 		go w.nodeRoutine(ctx, node, w.nodeInfoMap[node.GetLabel()])
